@@ -9,6 +9,89 @@ from .. import codec as K
 PROP = "C01"
 
 
+def msp430_text(i, at):
+    """the naken_asm spelling of an assembly-level MSP430 instruction of GenMsp430Enc"""
+    def opnd(o):
+        m = o["m"]
+        if m == "reg":
+            return "r%d" % o["r"]
+        if m == "idx":
+            return "%d(r%d)" % (o["v"], o["r"])
+        if m == "sym":
+            return "0x%x" % o["v"]
+        if m == "abs":
+            return "&0x%x" % o["v"]
+        if m == "ind":
+            return "@r%d" % o["r"]
+        if m == "inc":
+            return "@r%d+" % o["r"]
+        if m == "imm":
+            return "#%d" % o["v"]
+        raise ValueError(m)
+    sfx = ".b" if i["bw"] else ".w"
+    if i["f"] == "two":
+        return "%s%s %s, %s" % (i["op"], sfx, opnd(i["s"]), opnd(i["d"]))
+    if i["f"] == "one":
+        if i["op"] == "reti":
+            return "reti"
+        if i["op"] in ("swpb", "sxt", "call"):
+            return "%s %s" % (i["op"], opnd(i["s"]))
+        return "%s%s %s" % (i["op"], sfx, opnd(i["s"]))
+    if i["f"] == "jump":
+        return "%s 0x%x" % (i["op"], at + i["s"]["v"])
+    if i["d"]["m"] == "none":
+        return i["op"]
+    return "%s%s %s" % (i["op"], sfx, opnd(i["d"]))
+
+
+def arch_msp430(chk, vdir, tier, rnd):
+    """third sentence of the property for MSP430: the assembled bytes are an encoding of SLAU144 (Msp430Enc.tla)"""
+    import os
+    g = C.tlc("GenMsp430Enc", "gen_Msp430Enc.cfg", os.path.join(chk.rundir, "genenc"), workers=4, heap="4g")
+    chk.add_tlc(g)
+    insts = C.parse_payload(g.lines, "CASE ")
+    if len(insts) < 5000:
+        raise C.InfraError("only %d MSP430 instructions" % len(insts))
+    if tier == "quick":
+        insts = [x for x in insts if x["f"] != "two"] + rnd.sample([x for x in insts if x["f"] == "two"], 1500)
+    cases = []
+    ats = (0x1000, 0x8000)
+    for at in ats:
+        cases.append(("arch@%d" % at, "kind=asm cpu=msp430 addr=%d" % at, "\n".join(msp430_text(i, at) for i in insts)))
+    res = {o["case"]: o for o in C.conform_parallel(vdir, "codec", cases, chk.rundir, "arch", 60, nproc=2)}
+    events = []
+    for at in ats:
+        r = res.get("arch@%d" % at)
+        if not r or "res" not in r or len(r["res"]) != len(insts):
+            raise C.InfraError("architecture cases not executed: %s" % str(r)[:300])
+        for n, (i, (ok, b)) in enumerate(zip(insts, r["res"])):
+            events.append(dict(id="m%d@%d" % (n, at), i=i, at=at, acc=bool(ok), b=list(bytes.fromhex(b))))
+    canaries = set()
+    for e in rnd.sample([e for e in events if e["acc"]], 10):
+        c = json.loads(json.dumps(e))
+        c["id"] = "canary." + e["id"]
+        c["b"][0] ^= 0x10
+        canaries.add(c["id"])
+        events.append(c)
+    verdicts, runs = C.tlc_accept("TraceMsp430Enc", "trace_Msp430Enc.cfg", events, chk.rundir, "arch", heap="3g", nchunks=8)
+    for r in runs:
+        chk.add_tlc(r)
+    bad = {v["id"]: v["why"] for v in verdicts}
+    if [c for c in canaries if c not in bad]:
+        raise C.InfraError("architecture canaries accepted")
+    byid = {e["id"]: e for e in events}
+    for vid, why in sorted(bad.items()):
+        if vid in canaries:
+            continue
+        e = byid[vid]
+        i = e["i"]
+        shape = "%s %s %s" % (i["op"], i["s"]["m"], i["d"]["m"])
+        chk.report("C01:msp430:arch:%s:%s" % (why, shape),
+                   "%s: '%s' at 0x%x -> %s" % (why, msp430_text(i, e["at"]), e["at"], bytes(e["b"]).hex()),
+                   dict(instruction=i, at=e["at"], text=msp430_text(i, e["at"]), bytes=bytes(e["b"]).hex(), why=why))
+    return len(events) - len(canaries)
+
+
 def run(tier, seed):
     chk = C.Check(PROP, tier, seed, "model_checking")
     rnd = random.Random(seed)
@@ -87,8 +170,9 @@ def run(tier, seed):
                    "%s: .%s '%s' at %s -> %s; walk %s" % (v["why"], o["cpu"], c[2], c[1].split("addr=")[1], o["b"],
                                                           json.dumps(o["walk"])[:300]),
                    dict(case=dict(id=c[0], opts=c[1], text=c[2]), observed=o, why=v["why"]))
+    narch = arch_msp430(chk, vdir, tier, rnd)
     chk.cov.update(dict(
-        evaluations=len(cases),
+        evaluations=len(cases) + narch, msp430_architecture_cases=narch,
         distinct_nontrivial=len({(c[1].split("cpu=")[1].split()[0], c[2]) for c in cases}),
         rule="instruction texts of tests/comparison/*.txt (read at run time) plus every distinct accepted rendering harvested "
              "from the decode side, assembled at one or two load addresses; every case is an instruction (non-trivial); "
